@@ -656,7 +656,10 @@ impl Runner {
         if notify {
             self.notify_ids.insert(id);
         }
-        let body = format!("{{\"g\":{id},\"k\":\"{}\"}}", kind.name());
+        // every other panicking request is a LARGE frame (40 KB of padding the handlers ignore): whatever a
+        // server does differently with large requests, a panic in their handler is reported like any other
+        let pad = if kind.name() == "panic" && id % 2 == 0 { 40_000 } else { 0 };
+        let body = format!("{{\"g\":{id},\"k\":\"{}\",\"pad\":\"{}\"}}", kind.name(), "x".repeat(pad));
         (id, Frame::request(id, path, body.as_bytes(), 2, notify))
     }
 
